@@ -200,6 +200,93 @@ fn verif_packet_handshake_roundtrip() {
     assert!(back.payload.len() == written);
 }
 
+
+// receive path after the header decode: removing header protection from ANY accepted packet never
+// panics; RFC 9001 5.4.2: the sample starts 4 bytes after the start of the Packet Number field
+// ("the Packet Number field is assumed to be 4 bytes long") and "an endpoint MUST discard packets
+// that are not long enough to contain a complete sample"; 5.4.1: the low 4 bits of a long header's
+// first byte and the packet number bytes are unmasked, the packet number length is read AFTER
+// unmasking the first byte.
+struct MaskKey {
+    mask: crate::crypto::HeaderProtectionMask,
+    sample_len: usize,
+}
+
+impl crate::crypto::HeaderKey for MaskKey {
+    fn opening_header_protection_mask(&self, sample: &[u8]) -> crate::crypto::HeaderProtectionMask {
+        // the key is handed a sample of exactly the length it asked for
+        assert!(sample.len() == self.sample_len);
+        self.mask
+    }
+    fn opening_sample_len(&self) -> usize {
+        self.sample_len
+    }
+    fn sealing_header_protection_mask(&self, _sample: &[u8]) -> crate::crypto::HeaderProtectionMask {
+        self.mask
+    }
+    fn sealing_sample_len(&self) -> usize {
+        self.sample_len
+    }
+}
+impl crate::crypto::HandshakeHeaderKey for MaskKey {}
+
+const N_UNPROTECT: usize = 32;
+
+#[cfg_attr(kani, kani::proof)]
+#[cfg_attr(kani, kani::unwind(9))]
+fn verif_packet_handshake_unprotect() {
+    let orig: [u8; N_UNPROTECT] = kani::any();
+    let len: usize = kani::any();
+    kani::assume(len >= 5 && len <= N_UNPROTECT);
+    kani::assume(orig[0] >> 4 == 0b1110);
+    let key = MaskKey {
+        mask: kani::any(),
+        sample_len: if kani::any() { 16 } else { 0 },
+    };
+    let largest: u64 = kani::any();
+    // below 2^61 so that the expanded number is never clamped at the 2^62-1 ceiling
+    kani::assume(largest < (1 << 61));
+    let largest = PacketNumberSpace::Handshake.new_packet_number(VarInt::new(largest).unwrap());
+    let mut bytes = orig;
+    if let Ok((packet, _rest)) = ProtectedHandshake::decode(orig[0], peeked_version(&orig), DecoderBufferMut::new(&mut bytes[..len])) {
+        let r = match ref_numbered(&orig[..len], false, V1_MAX_CID) {
+            Some(r) => r,
+            None => panic!("decoder accepted a header the RFC reference rejects"),
+        };
+        let long_enough = r.length >= (4 + key.sample_len) as u64;
+        match packet.unprotect(&key, largest) {
+            Ok(encrypted) => {
+                kani::cover!(key.sample_len == 16 && key.mask[0] & 0x03 != 0, "16-byte sample, packet number length bits masked");
+                kani::cover!(key.sample_len == 0 && r.length == 4, "shortest packet that can be unprotected");
+                assert!(long_enough);
+                let first = orig[0] ^ (key.mask[0] & 0x0f);
+                let pn_len = (first & 0x03) as usize + 1;
+                assert!(encrypted.payload.get_tag() == first);
+                assert!(encrypted.payload.header_len == r.header_len);
+                assert!(encrypted.payload.packet_number_len.bytesize() == pn_len);
+                // the truncated packet number is the unmasked field, expanded against `largest`
+                // (expansion itself: C08-O1 / C05-O5)
+                let mut want: u64 = 0;
+                let mut i = 0;
+                while i < pn_len {
+                    want = (want << 8) | (orig[r.header_len + i] ^ key.mask[1 + i]) as u64;
+                    i += 1;
+                }
+                assert!(encrypted.packet_number.as_u64() & ((1u64 << (8 * pn_len)) - 1) == want);
+                // nothing but the first byte and the packet number bytes changed
+                let j: usize = kani::any();
+                if j >= 1 && j < r.packet_len && !(j >= r.header_len && j < r.header_len + pn_len) {
+                    assert!(encrypted.payload.buffer.peek().into_less_safe_slice()[j] == orig[j]);
+                }
+            }
+            Err(_) => {
+                kani::cover!(r.length == 3, "discarded: too short for a sample");
+                assert!(!long_enough);
+            }
+        }
+    }
+}
+
 // ---- generated by tools/fixup.py: native replay entry ----
 #[cfg(not(kani))]
 #[test]
@@ -208,5 +295,6 @@ fn verif_replay() {
         ("verif_packet_handshake_decode_diff", verif_packet_handshake_decode_diff),
         ("verif_packet_handshake_cid_bound", verif_packet_handshake_cid_bound),
         ("verif_packet_handshake_roundtrip", verif_packet_handshake_roundtrip),
+        ("verif_packet_handshake_unprotect", verif_packet_handshake_unprotect),
     ]);
 }
